@@ -99,6 +99,7 @@ func (q *ShardQueue) Add(gts ...WriterGetter) {
 	q.getters[shard] = append(q.getters[shard], gts...)
 	q.unlock(shard)
 	if trigger {
+		verifPoint(vpAddAfterAppend, q, int(shard))
 		q.triggering(shard)
 	}
 }
@@ -109,6 +110,7 @@ func (q *ShardQueue) Close() error {
 	}
 	// wait for all tasks finished
 	for atomic.LoadInt32(&q.state) != closed {
+		verifPoint(vpClosePoll, q, 0)
 		if atomic.LoadInt32(&q.trigger) == 0 {
 			atomic.StoreInt32(&q.state, closed)
 			return nil
@@ -124,19 +126,23 @@ func (q *ShardQueue) triggering(shard int32) {
 	q.w = (q.w + 1) % q.size
 	q.list[q.w] = shard
 	q.listLock.Unlock()
+	verifPoint(vpTriggeringAfterList, q, int(shard))
 
 	if atomic.AddInt32(&q.trigger, 1) > 1 {
 		return
 	}
+	verifPoint(vpTriggeringAfterCount, q, int(shard))
 	q.foreach()
 }
 
 // foreach swap r & w. It's not concurrency safe.
 func (q *ShardQueue) foreach() {
+	verifPoint(vpForeachEnter, q, 0)
 	if atomic.AddInt32(&q.runNum, 1) > 1 {
 		return
 	}
 	runner.RunTask(nil, func() {
+		verifPoint(vpWorkerStart, q, 0)
 		var negNum int32 // is negative number of triggerNum
 		for triggerNum := atomic.LoadInt32(&q.trigger); triggerNum > 0; {
 			q.r = (q.r + 1) % q.size
@@ -148,9 +154,11 @@ func (q *ShardQueue) foreach() {
 			q.getters[shared] = q.swap[:0]
 			q.swap = tmp
 			q.unlock(shared)
+			verifPoint(vpWorkerAfterSwap, q, int(shared))
 
 			// deal
 			q.deal(q.swap)
+			verifPoint(vpWorkerAfterDeal, q, int(shared))
 			negNum--
 			if triggerNum+negNum == 0 {
 				triggerNum = atomic.AddInt32(&q.trigger, negNum)
@@ -158,13 +166,16 @@ func (q *ShardQueue) foreach() {
 			}
 		}
 		q.flush()
+		verifPoint(vpWorkerAfterFlush, q, 0)
 
 		// quit & check again
 		atomic.StoreInt32(&q.runNum, 0)
+		verifPoint(vpWorkerAfterRunNum, q, 0)
 		if atomic.LoadInt32(&q.trigger) > 0 {
 			q.foreach()
 			return
 		}
+		verifPoint(vpWorkerExit, q, 0)
 		// if state is closing, change it to closed
 		atomic.CompareAndSwapInt32(&q.state, closing, closed)
 	})
